@@ -268,5 +268,6 @@ def main(rep, tier):
     _c.witnesses(rep, "C01", f)
     return rep.finish(
         "Necessary conditions taken from the statement's wording: key normalisation provenance, last-value-wins mutation API, id / role / "
-        "flags provenance, Params dispatch rows, frame-length field provenance (never crossed) in all framing implementations.",
+        "flags provenance, Params dispatch rows (incl. the drive-loop verdict), frame-length field provenance (never crossed) in the request parser's framing, "
+        "cross-record reassembly accounting, buffer-size premise, start of the next preamble at the unread input.",
         not_decided="equality of the decoded environment with the last-value-wins map for every record cut, read cut and buffer size (cross-record reassembly arithmetic in parse_buffered / try_fill!)")
